@@ -135,6 +135,8 @@ class Seams:
         self.ftime = FakeTime(kernel, real_time)
         self._saved = []
         self.server_send_hook = None
+        self.wake_lag_max = 0.0
+        self.n_wakes = 0
         self.logged_errors = []     # (t, message, exception type, exception text) logged at ERROR by the repo
         self.server_threads = []    # UdpServerThread instances started under simulation
         self.server_sockets = []
@@ -154,6 +156,11 @@ class Seams:
         else:
             scalar = self.keyrng.randrange(1, P256_ORDER)
         return crypto_mod.EllipticCurvePrivateKey(real_ec.derive_private_key(scalar, real_ec.SECP256R1()))
+
+    def wake_lag(self):
+        # how long a notified thread takes to get going again (scheduler latency), a keyed hash per wake-up
+        self.n_wakes += 1
+        return self.wake_lag_max * khash(self.seed, "wake", self.n_wakes)[0]
 
     def reactor_lag(self, n):
         if not self.reactor_lag_max:
@@ -178,7 +185,13 @@ class Seams:
         self._set(client_mod, "select", SelectShim(real_select))
         self._set(server_mod, "socket", SocketShim(self))
         self._set(server_mod, "Lock", lambda: SimLock(k))
-        self._set(server_mod, "Condition", lambda lock=None: SimCondition(k, lock if lock is not None else SimLock(k)))
+        def mk_condition(lock=None):
+            cv = SimCondition(k, lock if lock is not None else SimLock(k))
+            if seams_.wake_lag_max:
+                cv.wake_lag = seams_.wake_lag
+            return cv
+        seams_ = self
+        self._set(server_mod, "Condition", mk_condition)
         self.reactor = FakeReactor(self)
         self._set(twisted_mod, "reactor", self.reactor)
         self._set(context_mod, "os", OsShim(self, "context"))
